@@ -37,7 +37,7 @@ def obligations(tier):
         CH("forward_memory_call_sites", H, "fwd_memory", t, functions=F[3:8], stubs=[REC],
            bounds="6 call sites x 3 input forms; allow_custom symbolic; version None or any str <= 3"),
         CH("forward_filesystem_call_sites", H, "fwd_filesystem", t, functions=F[8:13], stubs=[REC, FSS],
-           bounds="5 call sites; allow_custom symbolic; version None or any str <= 3"),
+           bounds="5 call sites x 3 directory layouts (versioned, flat, mixed incl. legacy flat copies and ids that exist only as flat files); allow_custom symbolic; version None or any str <= 3; every stored file reaches the parser exactly once"),
         CH("forward_observable_property", H, "fwd_observable_property", t, functions=F[13:14], stubs=[REC], bounds="allow_custom symbolic, both spec versions"),
         CH("entry_points_same_class", H, "entry_points", t, mode="E1s", functions=F, stubs=[FSS],
            bounds="8 documents (2.0/2.1 SDO, SCO with/without id, 2.0/2.1 bundles, bundles whose members carry no version / a 2.1-only id) x (no version, 2.0, 2.1) x "
